@@ -93,11 +93,26 @@ fn neighbours(u: &[char], abc: &[char; 3]) -> Vec<String> {
 
 /// `A` must be present and before `B`, for every rating pair of `ratings` and both insertion orders.
 fn before(cx: &mut Cx, l: L, rule: &'static str, a: &str, b: &str, q: &str, ratings: &[(usize, usize)]) {
+    before_in(cx, l, rule, a, b, q, ratings, 1, None)
+}
+
+/// The same, with `copies` copies of B in the store and an explicit limit: with limit 2 and four copies of B the
+/// winner has to survive the top-k selection as well (A present and before every B that is returned).
+fn before_in(cx: &mut Cx, l: L, rule: &'static str, a: &str, b: &str, q: &str, ratings: &[(usize, usize)], copies: usize, limit: Option<usize>) {
     for &(ra, rb) in ratings {
         for order in 0..2 {
-            let recs: Vec<Rec> = if order == 0 { vec![rec(1, a, ra), rec(2, b, rb)] } else { vec![rec(2, b, rb), rec(1, a, ra)] };
+            let mut recs: Vec<Rec> = Vec::new();
+            if order == 0 {
+                recs.push(rec(1, a, ra));
+            }
+            for c in 0..copies {
+                recs.push(rec(2 + c, b, rb));
+            }
+            if order == 1 {
+                recs.push(rec(1, a, ra));
+            }
             cx.eval();
-            let Some(mut st) = cx.build_noted(l, &recs, None, None) else { return };
+            let Some(mut st) = cx.build_noted(l, &recs, limit, None) else { return };
             let hits = match cx.search(&mut st, q) {
                 Ok(h) => h,
                 Err(p) => {
@@ -108,7 +123,7 @@ fn before(cx: &mut Cx, l: L, rule: &'static str, a: &str, b: &str, q: &str, rati
             cx.validated();
             cx.state();
             let order_ids = ids(&hits);
-            let (pa, pb) = (order_ids.iter().position(|x| *x == 1), order_ids.iter().position(|x| *x == 2));
+            let (pa, pb) = (order_ids.iter().position(|x| *x == 1), order_ids.iter().position(|x| *x >= 2));
             let ok = match (pa, pb) {
                 (Some(pa), Some(pb)) => pa < pb,
                 (Some(_), None) => true,
@@ -129,8 +144,8 @@ fn before(cx: &mut Cx, l: L, rule: &'static str, a: &str, b: &str, q: &str, rati
             } else {
                 let sig = format!("C08:{}", rule);
                 cx.fail(&sig, || {
-                    json!({"lang": l.tag(), "rule": rule, "ops": ops_json(&recs, None, None, &[q]), "expected": format!("record 1 ({:?}) present and before record 2 ({:?})", a, b), "observed": hits,
-                           "unit_test": unit_test_body(l, &recs, None, None, &[q], "    let pos = |id| hits0.iter().position(|h| h.0 == id);\n    assert!(pos(1).is_some() && pos(2).map(|p| pos(1).unwrap() < p).unwrap_or(true), \"{:?}\", hits0);\n")})
+                    json!({"lang": l.tag(), "rule": rule, "ops": ops_json(&recs, limit, None, &[q]), "expected": format!("record 1 ({:?}) present and before record 2 ({:?})", a, b), "observed": hits,
+                           "unit_test": unit_test_body(l, &recs, limit, None, &[q], "    let pos = |id| hits0.iter().position(|h| h.0 == id);\n    assert!(pos(1).is_some() && pos(2).map(|p| pos(1).unwrap() < p).unwrap_or(true), \"{:?}\", hits0);\n")})
                 });
                 return;
             }
@@ -249,6 +264,11 @@ impl Prop for C08 {
         for q in qforms(&u) {
             before(cx, l, "R5:earlier-position-first", &format!("{} {}", u, x), &format!("{} {}", x, u), &q, &all);
         }
+        // the winner must also survive the cut to the best `limit`: four copies of the loser, limit 2 and 1
+        let extremes = [(0usize, RATINGS[2]), (RATINGS[2], 0)];
+        before_in(cx, l, "R5:earlier-position-first(limit 2, 4 copies of the other title)", &format!("{} {}", u, x), &format!("{} {}", x, u), &u, &extremes, 4, Some(2));
+        before_in(cx, l, "R3:word-before-word-with-trailing-letters(limit 2, 4 copies of the other title)", &u, &format!("{}{}", u, ab.tails[0]), &u, &extremes, 4, Some(2));
+        before_in(cx, l, "R6:identical-titles-higher-rating-first(limit 1, 4 copies of the lower-rated title)", &u, &u, &u, &[(RATINGS[2], 0), (1, 0)], 4, Some(1));
         // R6: identical titles: higher rating first; equal rating: 'u' before 'u x'
         let higher: Vec<(usize, usize)> = vec![(1, 0), (RATINGS[2], 0), (RATINGS[2], 1), (RATINGS[2], RATINGS[2] - 1)];
         for q in qforms(&u) {
